@@ -74,10 +74,23 @@ class Ctx:
 # --------------------------------------------------------------------------
 
 def _route_obs(ctx, router, route, hid_of):
+    repr(route)                                    # __repr__ / RouteMethod.__str__ must not raise
+    for rm in route._methods.values():
+        repr(rm)
     return dict(rule=ctx.rule_idx(route.rule), pattern=cps(route.pattern),
                 live=router.routes.get(route.pattern) is route,
                 methods=[[cps(m), hid_of(rm.handler), [cps(n) for n in (rm.params or [])]]
-                         for m, rm in route._methods.items()])
+                         for m, rm in route._methods.items()],
+                metas={m: rm.meta for m, rm in route._methods.items() if rm.meta is not None})
+
+
+def strip(obs):
+    """drop what the model does not carry (RouteMethod.meta) before the comparison"""
+    if isinstance(obs, dict):
+        return {k: strip(v) for k, v in obs.items() if k != 'metas'}
+    if isinstance(obs, list):
+        return [strip(v) for v in obs]
+    return obs
 
 
 class App:
@@ -112,6 +125,20 @@ class App:
             self.fn_id[id(f)] = h
         return self.fn['k', h]
 
+    def key_form(self, c):
+        """the forms RadiRouter.__getitem__ accepts for a rule / a pattern"""
+        from ombott.router.radirouter import RouteKey
+        form = c.get('form')
+        if form == 'dict':
+            return {'rule': c['rule']}
+        if form == 'routekey':
+            return RouteKey(c['rule'])
+        if form == 'pattern':
+            return {'pattern': router_pattern(c['rule'])}
+        if form == 'routekey_pattern':
+            return RouteKey(pattern=router_pattern(c['rule']))
+        return {c['rule']}
+
     def hid_of(self, f):
         return self.fn_id.get(id(f), -1) if f is not None else None
 
@@ -124,15 +151,39 @@ class App:
         app, router = self.app, self.app.router
         try:
             if op == 'add':
-                app.add_route(c['rule'], c['methods'], self.handler(c['h']), c.get('name'),
-                              overwrite=bool(c.get('overwrite')))
+                via = c.get('via')
+                hd, ow, nm = self.handler(c['h']), bool(c.get('overwrite')), c.get('name')
+                if c.get('meta') is not None or via == 'router_add':
+                    router.add(c['rule'], c['methods'], hd, nm, meta=c.get('meta'), overwrite=ow)
+                elif via == 'route_deco':
+                    app.route(c['rule'], c['methods'], name=nm, overwrite=ow)(hd)
+                elif via == 'route_cb':
+                    app.route(c['rule'], c['methods'], hd, name=nm, overwrite=ow)
+                elif via == 'shortcut':
+                    m = c['methods'] if isinstance(c['methods'], str) else c['methods'][0]
+                    getattr(app, m.lower())(c['rule'], hd, name=nm, overwrite=ow)
+                elif via == 'shortcut_deco':
+                    m = c['methods'] if isinstance(c['methods'], str) else c['methods'][0]
+                    getattr(app, m.lower())(c['rule'], name=nm, overwrite=ow)(hd)
+                else:
+                    app.add_route(c['rule'], c['methods'], hd, nm, overwrite=ow)
             elif op == 'remove':
                 app.remove_route(c['rule'])
             elif op == 'remove_name':
                 app.remove_route(name=c['name'])
             elif op == 'add_hook':
+                via = c.get('via')
                 if c.get('partial'):
-                    router.add_hook(c['rule'], self.hook(c['h']), hook_type=HookTypes.PARTIAL)
+                    if via == 'error404':
+                        app.error(404, c['rule'])(self.hook(c['h']))
+                    elif via == 'int':
+                        router.add_hook(c['rule'], self.hook(c['h']), hook_type=1)
+                    else:
+                        router.add_hook(c['rule'], self.hook(c['h']), hook_type=HookTypes.PARTIAL)
+                elif via == 'deco':
+                    app.on_route(c['rule'])(self.hook(c['h']))
+                elif via == 'router':
+                    router.add_hook(c['rule'], self.hook(c['h']))
                 else:
                     app.on_route(c['rule'], self.hook(c['h']))
             elif op == 'remove_hook':
@@ -162,11 +213,52 @@ class App:
                 r = router[c['name']]
                 return None if r is None else _route_obs(self.ctx, router, r, self.hid_of)
             elif op == 'by_rule':
-                r = router[{c['rule']}]
+                r = router[self.key_form(c)]
                 return None if r is None else _route_obs(self.ctx, router, r, self.hid_of)
+            elif op == 'remove_obj':
+                r = router[{c['rule']}]
+                if r is not None:
+                    router.remove(r)
+            elif op == 'route_method':
+                r = router[{c['rule']}]
+                if r is not None:
+                    if c.get('overwrite'):
+                        r.set_method(c['methods'], self.handler(c['h']))
+                    else:
+                        r.add_method(c['methods'], self.handler(c['h']))
+            elif op == 'resolve_route':
+                r = router.resolve(c['path'])
+                return None if r is None else _route_obs(self.ctx, router, r, self.hid_of)
+            elif op == 'call_route':
+                r = router[{c['rule']}]
+                if r is None:
+                    return 'noroute'
+                self.box['t'] = []
+                try:
+                    r(c['verb'])
+                except RouteMethodError:
+                    return 'nomethod'
+                calls = self.box['t']
+                self.box['t'] = []
+                return ['called'] + [x[1] for x in calls if x[0] == 'handler']
+            elif op == 'get_hook':
+                try:
+                    hp = router.get_hook(c['rule'])
+                except KeyError:
+                    return None
+                return [self.hid_of(hp[0]), self.hid_of(hp[1])]
+            elif op == 'iter':
+                out = []
+                for nodes in router.radidict._routes_iter(startswith=c.get('startswith') or None,
+                                                          yield_hooks=bool(c.get('yield_hooks'))):
+                    n = nodes[-1]
+                    out.append([cps(''.join(x[0] for x in nodes[1:])),
+                                None if n[7] is None else self.ctx.rule_idx(n[7].rule),
+                                None if not n[6] else [self.hid_of(n[6][0]), self.hid_of(n[6][1])]])
+                return sorted(out, key=repr)
             elif op == 'listing':
                 return dict(
-                    routes=[[cps(p), _route_obs(self.ctx, router, r, self.hid_of)] for p, r in router.routes.items()],
+                    routes=[[cps(p), _route_obs(self.ctx, router, r, self.hid_of)] for p, r in app.routes.items()],
                     named=[[cps(n), _route_obs(self.ctx, router, r, self.hid_of)] for n, r in router.named_routes.items()],
                     hooks=[[cps(p), self.hid_of(hp[0]), self.hid_of(hp[1])] for p, hp in router.hooks.items()])
             else:
@@ -194,7 +286,7 @@ class App:
         app = self.app
         # direct: Ombott.to_route on the request's own view of path and method
         rp = '/' + path.lstrip('/')
-        end_point, err = app.to_route(rp, verb.upper())
+        end_point, err = app.to_route(rp, (verb if verb is not None else 'GET').upper())
         if end_point:
             meth, params, hooks = end_point
             direct = dict(kind=200, rule=self.ctx.rule_idx(meth.route.rule), method=cps(meth.name),
@@ -216,7 +308,9 @@ class App:
             pinfo = path.encode('utf8').decode('latin1')
         except UnicodeError:
             return dict(direct=direct, wsgi=dict(status=-1))
-        env = environ(verb, pinfo)
+        env = environ(verb or 'GET', pinfo)
+        if verb is None:
+            del env['REQUEST_METHOD']          # Request.method defaults to GET
         body = app(env, start_response)
         for _ in body:
             pass
@@ -228,16 +322,32 @@ class App:
         return dict(direct=direct, wsgi=w)
 
 
+def router_pattern(rule):
+    from ombott.router.radirouter import RadiRouter
+    return RadiRouter.to_pattern(rule)
+
+
+def traced(f, *a):
+    return _COV.traced(f, *a) if _COV is not None else f(*a)
+
+
 def run_script(case):
-    if _COV is not None:
-        return _COV.traced(_run_script, case)
-    return _run_script(case)
+    return traced(_run_script, case)
 
 
 def _run_script(case):
     ctx = Ctx(case)
     a = App(ctx)
-    return [a.run(c) for c in case['cmds']]
+    twin = case.get('twin')
+    if not twin:
+        return [a.run(c) for c in case['cmds']]
+    # a second application in the same process, operated in between: it must not influence the first one
+    b = App(Ctx(dict(cmds=twin)))
+    out = []
+    for i, c in enumerate(case['cmds']):
+        b.run(twin[i % len(twin)])
+        out.append(a.run(c))
+    return out
 
 
 # --------------------------------------------------------------------------
@@ -362,15 +472,38 @@ def encode(case):
             # in the model: remove_method([verb]) on the route of that rule (a no-op when the verb is not registered)
             p, _, fl = ctx.parse(c['rule'])
             out += [5] + enc_str(cps(p)) + enc_list(fl, enc_ofid) + enc_list([c['verb']], lambda m: enc_str(cps(m)))
+        elif op == 'remove_obj':
+            p, _, fl = ctx.parse(c['rule'])
+            out += [6] + enc_str(cps(p)) + enc_list(fl, enc_ofid)
+        elif op == 'route_method':
+            p, _, fl = ctx.parse(c['rule'])
+            ms = c['methods'] if isinstance(c['methods'], list) else [c['methods']]
+            out += ([7] + enc_str(cps(p)) + enc_list(fl, enc_ofid) + enc_list(ms, lambda m: enc_str(cps(m)))
+                    + [c['h'], 1 if c.get('overwrite') else 0])
+        elif op == 'resolve_route':
+            tab = filter_table(ctx, c['path'])
+            out += ([14] + enc_str(cps(c['path']))
+                    + enc_list(tab, lambda row: enc_list(
+                        row, lambda cell: [0] if cell is None else [1] + enc_str(cell[0]) + [cell[1]])))
+        elif op == 'call_route':
+            p, _, fl = ctx.parse(c['rule'])
+            out += [15] + enc_str(cps(p)) + enc_list(fl, enc_ofid) + enc_str(cps(c['verb']))
+        elif op == 'get_hook':
+            p, _, _ = ctx.parse(c['rule'])
+            out += [16] + enc_str(cps(p))
+        elif op == 'iter':
+            out += [17] + enc_str(cps(c.get('startswith') or '')) + [1 if c.get('yield_hooks') else 0]
         elif op == 'dispatch':
             tab = filter_table(ctx, c['path'])
-            out += ([10] + enc_str(cps(c['path'])) + enc_str(cps(c['verb']))
+            out += ([10] + enc_str(cps(c['path'])) + enc_str(cps(c['verb'] if c['verb'] is not None else 'GET'))
                     + enc_list(tab, lambda row: enc_list(
                         row, lambda cell: [0] if cell is None else [1] + enc_str(cell[0]) + [cell[1]])))
         elif op == 'by_name':
             out += [11] + enc_str(cps(c['name']))
         elif op == 'by_rule':
             p, _, fl = ctx.parse(c['rule'])
+            if c.get('form') in ('pattern', 'routekey_pattern'):
+                fl = []                       # lookup by pattern: no filter comparison
             out += [12] + enc_str(cps(p)) + enc_list(fl, enc_ofid)
         elif op == 'listing':
             out += [13]
@@ -430,8 +563,16 @@ def decode(out, case):
                                 wsgi=dict(status=200, calls=calls)))
             else:
                 obs.append(dict(model_tag=tag))
-        elif op in ('by_name', 'by_rule'):
+        elif op in ('by_name', 'by_rule', 'resolve_route'):
             obs.append(_route(r) if r.bool() else None)
+        elif op == 'call_route':
+            tag = r.int()
+            obs.append(['called', r.int()] if tag == 1 else 'nomethod' if tag == 0 else 'noroute' if tag == 2 else 'corrupt')
+        elif op == 'get_hook':
+            obs.append([_ohid(r), _ohid(r)] if r.bool() else None)
+        elif op == 'iter':
+            items = r.list(lambda q: [q.str(), (q.int() if q.bool() else None), ([_ohid(q), _ohid(q)] if q.bool() else None)])
+            obs.append(sorted(items, key=repr))
         elif op == 'listing':
             routes = r.list(lambda q: [q.str(), _route(q)])
             named = r.list(lambda q: [q.str(), _route(q)])
